@@ -410,6 +410,7 @@ func (t *Template) parseBlock() Node {
 	}
 
 	t.expectRightDelim(context)
+	line := t.lex.lineNumber() // of the block action itself, not of its {{end}}
 
 	list, end := t.itemList(nodeContent, nodeEnd)
 	var contentList *ListNode
@@ -418,7 +419,7 @@ func (t *Template) parseBlock() Node {
 		contentList, end = t.itemList(nodeEnd)
 	}
 
-	block := t.newBlock(name.pos, t.lex.lineNumber(), name.val, bplist, pipe, list, contentList)
+	block := t.newBlock(name.pos, line, name.val, bplist, pipe, list, contentList)
 	t.passedBlocks[block.Name] = block
 	return block
 }
@@ -448,6 +449,7 @@ func (t *Template) parseYield() Node {
 
 	// parse block parameters
 	bplist = t.blockParametersList(false, context)
+	line := 0
 
 	// parse optional context & content
 	typ := t.peekNonSpace().typ
@@ -465,13 +467,17 @@ func (t *Template) parseYield() Node {
 			// parse content from following nodes (until {{end}})
 			t.nextNonSpace()
 			t.expectRightDelim(context)
+			line = t.lex.lineNumber() // of the yield action itself, not of its {{end}}
 			content, _ = t.itemList(nodeEnd)
 		} else {
 			t.unexpected(t.nextNonSpace(), context, "content keyword or closing delimiter")
 		}
 	}
+	if line == 0 {
+		line = t.lex.lineNumber()
+	}
 
-	return t.newYield(name.pos, t.lex.lineNumber(), name.val, bplist, pipe, content, false)
+	return t.newYield(name.pos, line, name.val, bplist, pipe, content, false)
 }
 
 func (t *Template) parseInclude() Node {
